@@ -226,6 +226,16 @@ pub fn check_large(alg: Algorithm, inp: &super::large::LargeInput) -> Result<(bo
             pn..pn + m
         ));
     }
+    // old and new in different element types (new: PartialEq<old>)
+    {
+        use crate::instr::{Hi, Lo};
+        let o: Vec<Lo> = old.iter().map(|&x| Lo(x)).collect();
+        let nn: Vec<Hi> = new.iter().map(|&x| Hi(x as u64)).collect();
+        let het = raw_stream(alg, 0, &o[..], 0..n, &nn[..], 0..m).map_err(|e| format!("heterogeneous element types: {}", e))?;
+        if het != base {
+            return Err("with old items of type Lo(u32) and new items of type Hi(u64) the stream differs from the stream on u32 items".into());
+        }
+    }
     Ok((st.equal_calls > 0 && st.change_calls > 0, base.len() as u64 + got.len() as u64, calls_fp(&base)))
 }
 
